@@ -224,6 +224,8 @@ def run(rep, ctx):
     TO.norm_perm(rep, T, "R07.1")
     with rep.guard("R07.2"):
         r07_2(rep, M, "R07.2")
+        from .. import symrules as _SRg
+        _SRg.ground_state_consistency_raises(rep, M, "R07.2")
     with rep.guard("R07.3"):
         r07_3(rep, M, "R07.3")
     with rep.guard("R07.4"):
